@@ -10,7 +10,7 @@ import conda_content_trust
 from conda_content_trust import authentication as A, common as C, signing as S
 
 from props import C02, C03
-from vlib import configrun, faults, gen_deleg, gen_envelope as GE, gen_json as G, gen_metadata as GM, gen_pyvalues as GP, keys, ref_openpgp, \
+from vlib import configrun, faults, hostile, gen_deleg, gen_envelope as GE, gen_json as G, gen_metadata as GM, gen_pyvalues as GP, keys, ref_openpgp, \
     ref_schema, ref_verify as RV, related, sched, tagjson
 from vlib.ref_canon import canon, jeq
 from vlib.runner import Inconclusive, Unit, Violation
@@ -37,6 +37,9 @@ ASSUMPTIONS = ["pre-emption inside C extensions cannot be scheduled by the harne
 PKG = os.path.dirname(os.path.realpath(conda_content_trust.__file__))
 
 
+_HEX64 = __import__("re").compile(r"\A[0-9a-f]{64}\Z")
+
+
 def snap(x):
     """type-exact, order-preserving snapshot"""
     return tagjson.dumps(x)
@@ -46,7 +49,7 @@ def snap(x):
 
 CALLS = ["verify_signable", "verify_signable", "verify_delegation", "verify_delegation", "verify_root", "checkformat_delegating_metadata",
          "is_signable", "checkformat_signature", "wrap_as_signable", "canonserialize", "related_payload", "related_eq", "repeat", "repeat",
-         "verify_gpg_signature", "checkformat_delegation"]
+         "verify_gpg_signature", "checkformat_delegation", "key_role_swap"]
 
 GRAY_NUMS = [1.0, True, 2.0, 1, 2]
 
@@ -182,6 +185,25 @@ def check_history(case):
                 if snap(p) != want_p:
                     raise Violation("changing the envelope after wrap_as_signable changed the caller's payload (a %s)" % type(p).__name__,
                                     bucket="wrap aliases payload")
+            # the same with nested containers that are instances of dict / list / tuple subclasses (OrderedDict, defaultdict,
+            # namedtuple, a list subclass): still JSON-serializable, and still to be copied
+            p2, n_sub = related.subclassed(p, variant=a)
+            if n_sub:
+                env2 = S.wrap_as_signable(p2)
+                want2 = related.plain(env2["signed"])
+                if want2 != related.plain(p2):
+                    raise Violation("wrap_as_signable of a payload with nested container-subclass instances: the wrapped copy differs "
+                                    "from the payload", bucket="wrap changes payload")
+                related.mutate_all_nested(p2)
+                if related.plain(env2["signed"]) != want2:
+                    raise Violation("changing a nested %s inside the original payload after wrap_as_signable changed the envelope: the "
+                                    "payload was not deep-copied" % "OrderedDict / defaultdict / list-subclass / namedtuple member",
+                                    bucket="wrap aliases payload")
+                want_p2 = related.plain(p2)
+                related.mutate_all_nested(env2["signed"])
+                if related.plain(p2) != want_p2:
+                    raise Violation("changing the envelope after wrap_as_signable changed the caller's payload (nested container-"
+                                    "subclass instances are shared)", bucket="wrap aliases payload")
             if isinstance(env["signed"], (dict, list)):
                 S.sign_signable(env, C.PrivateKey.from_bytes(seeds[0]))
                 o1 = call("verify_signable(wrapped)", A.verify_signable, [env, [keys.pub_hex(seeds[0])], 1])
@@ -226,6 +248,25 @@ def check_history(case):
                     raise Violation("after verifying an envelope, an ==-equal but different JSON payload with the same signatures: %s" % bad,
                                     bucket="outcome depends on earlier calls")
                 related_done = True
+        elif name == "key_role_swap":
+            # The hex strings this history uses as PUBLIC keys are now used as PRIVATE key values (any 32 bytes are a valid
+            # Ed25519 seed; an operator feeding the .pub hex to the signer does exactly this), and a seed as public key value.
+            hexes = [h for h in list(e["authorized"])[:3] + list(e["env"]["signatures"])[:3] if isinstance(h, str) and _HEX64.match(h)]
+            for h in hexes:
+                _outcome(lambda: S.sign_signable(S.wrap_as_signable({"x": a}), C.PrivateKey.from_hex(h)))
+            _outcome(C.PublicKey.from_hex, seeds[0].hex())
+            exp = RV.signable(e["env"], e["authorized"], e["threshold"], e["gpg"])
+            o = RV.outcome(A.verify_signable, copy.deepcopy(e["env"]), e["authorized"], e["threshold"], gpg=e["gpg"])[0]
+            bad = RV.mismatch(exp, o)
+            if bad:
+                raise Violation("after the authorized key strings were used as private-key values elsewhere in the process: %s" % bad,
+                                bucket="outcome depends on earlier calls")
+            env = S.wrap_as_signable({"y": b})
+            o = _outcome(lambda: S.sign_signable(env, C.PrivateKey.from_hex(seeds[0].hex())))
+            if o.startswith("raise") or env["signatures"] != {keys.pub_hex(seeds[0]): {"signature": keys.sign_raw(seeds[0], canon({"y": b})).hex()}}:
+                raise Violation("after a seed's hex string was used as a public-key value elsewhere in the process, signing with it gives %s / "
+                                "an entry that is not the RFC 8032 signature under its public key" % o[:60], bucket="outcome depends on earlier calls")
+            related_done = True
         elif name == "repeat" and log:
             desc, f, args, kwargs = log[a % len(log)]
             call(desc, f, copy.deepcopy(args), kwargs)
@@ -461,7 +502,7 @@ def check_fault_then_call(case):
 def _sweep_cases(draw):
     return {"seed": draw(keys.seeds).hex(), "other": draw(keys.seeds).hex(), "payload": draw(G.package_record),
             "entry": draw(st.sampled_from(["verify_signable", "verify_delegation", "verify_root"])), "gpg": draw(st.booleans()),
-            "kind": draw(st.sampled_from(["invalid", "valid", "unauthorized"]))}
+            "kind": draw(st.sampled_from(["invalid", "valid", "unauthorized"])), "class_offset": draw(st.integers(0, 8))}
 
 
 def check_fault_sweep(case):
@@ -504,16 +545,25 @@ def check_fault_sweep(case):
         return lambda: A.verify_signable(copy.deepcopy(env), [pub], 1, gpg=gpg)
 
     want = "accept" if kind == "valid" else "SignatureError"
+    fault_base = faults.rotating(case.get("class_offset", 0))
+    swallowed = 0
     for gran in ("line", "ccall"):
         k = 0
         while k < 3000:
             k += 1
             env = build("%s-%d" % (gran, k))
-            tr = faults.run(thunk(env), PKG, "/nonexistent-target", fault_at=k, granularity=gran)
-            if tr.outcome != "InjectedFault":
+            tr = faults.run(thunk(env), PKG, "/nonexistent-target", fault_at=k, granularity=gran, fault_base=fault_base(k))
+            if not tr.fired:
                 break          # k is beyond the end of the run
             n_faults += 1
-            where = str(tr.exc)[:140]
+            where = str(tr.exc)[:140] if tr.exc is not None else "%s fault %d, %s" % (gran, k, getattr(fault_base(k), "__name__", "Exception"))
+            if tr.outcome == "return":
+                swallowed += 1
+                if want != "accept":
+                    raise Violation("%s(gpg=%s) on an envelope with one %s signature: a %s raised inside the call (%s fault %d) was swallowed "
+                                    "and the call ACCEPTED although the envelope must be rejected - not fail-closed"
+                                    % (entry, gpg, kind, getattr(fault_base(k), "__name__", "Exception"), gran, k),
+                                    bucket="fault turns reject into accept")
             tr.exc = None
             try:
                 thunk(env)()
@@ -524,6 +574,21 @@ def check_fault_sweep(case):
                 raise Violation("%s(gpg=%s) on an envelope with one %s signature was interrupted (%s); the same envelope verified "
                                 "again afterwards gives %s instead of %s" % (entry, gpg, kind, where, o, want),
                                 bucket="state left behind by an interrupted call")
+    # the same under a standard output that fails (dead pipe, full disk, closed, cannot encode): the verifiers print diagnostics
+    for hk in hostile.KINDS:
+        env = build("stdout-" + hk)
+        o = hostile.outcome_under(hk, thunk(env))
+        if o == "accept" and want != "accept":
+            raise Violation("%s(gpg=%s) on an envelope with one %s signature ACCEPTS when standard output fails (%s) although the "
+                            "envelope must be rejected" % (entry, gpg, kind, hk), bucket="failing stdout turns reject into accept")
+        try:
+            thunk(env)()
+            o = "accept"
+        except Exception as e:
+            o = type(e).__name__
+        if o != want:
+            raise Violation("%s(gpg=%s): after a call under a failing standard output (%s) the same envelope gives %s instead of %s"
+                            % (entry, gpg, hk, o, want), bucket="state left behind by an interrupted call")
     return {"nontrivial": n_faults > 0, "labels": [entry, "kind=" + kind, "gpg" if gpg else "raw"], "count": {"interruptions": n_faults}}
 
 
